@@ -684,6 +684,14 @@ pub fn encode_with_fixed_block_size<T: Source>(
         stream.add_frame(frame);
     }
 
+    // `add_frame` lowers `min_block_size` to the size of a short final block,
+    // but FLAC excludes the last block from this bound (and values below 16
+    // are invalid), so the fixed block size is restored here.
+    stream
+        .stream_info_mut()
+        .set_block_sizes(block_size, block_size)
+        .unwrap();
+
     let (_, context) = framebuf_and_context;
     stream
         .stream_info_mut()
